@@ -11,6 +11,7 @@ Features can be switched on through `feat`:
     blockish  continuation lines (or lines inside a triple-quoted string) starting with a compound-statement keyword
     adjstr adjacent string literals with no separator
     dotnum number literals starting with a dot (`.5`)
+    kwdot  a float literal ending in its dot directly before a keyword (`3. else (c).r`)
     fromname identifiers ending in "from" followed by an attribute access (`date_from.year`)
     fquote f-strings whose literal part contains the delimiting quote character (escaped, or single inside triple)
     escq   triple-quoted strings ending in an escaped quote          (`\"\"\"a\\\"\"\"\"`)
@@ -21,7 +22,7 @@ NAMES = ["a", "b", "x", "y", "foo", "bar_1", "_p", "self", "f", "rb", "u", "R", 
          "\u00e9t\u00e9", "\u540d\u524d", "x\u0663", "\u03b1_1", "If", "or_", "elif_", "data", "n0"]
 XID_NAMES = ["e\u0301x", "a\u203fb", "a\u00b7b", "na\u0308ive", "x\u0300\u0301"]
 ATTRS = ["a", "b", "x", "foo", "bar_1", "rb", "f", "u", "items", "\u00e9t\u00e9", "count", "_p"]
-NUMBERS = ["0", "1", "42", "1_000", "0x1F", "0b101", "0o17", "1.5", "1e5", "2.5j", "10", "3.", "0.5"]
+NUMBERS = ["0", "1", "42", "1_000", "0x1F", "0b101", "0o17", "1.5", "1e5", "2.5j", "10", "0.5", "3.0"]
 PREFIXES = ["", "", "", "", "r", "R", "u", "U", "b", "B", "br", "Br", "bR", "BR", "rb", "rB", "Rb", "RB"]
 FPREFIXES = ["f", "F", "fr", "fR", "Fr", "FR", "rf", "rF", "Rf", "RF"]
 QUOTES = ["'", '"', "'''", '"""']
@@ -219,6 +220,10 @@ class Gen:
         if k < 0.40 or d <= 0:
             return [self.name()]
         if k < 0.50:
+            if "kwdot" in self.feat and self.p(0.5):
+                # a float ending in its dot, a keyword, then a bracketed atom with an attribute: `3. else (c).r`
+                return [W(self.ch(["3.", "1.", "0."])), W(self.ch(["if", "and", "or"])), "(", self.name(), ")", ".", self.attr(),
+                        W("else"), "(", self.name(), ")", ".", self.attr()][:7 if self.p(0.5) else 13]
             if "dotnum" in self.feat and self.p(0.6):
                 if self.p(0.5):
                     return [self.name(), self.ch(["(", "["]), W(self.ch([".5", ".25e3"])), None, ".", self.attr()]
